@@ -85,7 +85,7 @@ Proof. vm_compute. repeat split; reflexivity. Qed.
 Theorem C12_loader_truncated_rejected : forall (img : list Z) (names : list (list Z)) (offs t y : list Z),
   let n := Z.of_nat (List.length img) in
   let k := Z.of_nat (List.length names) in
-  n mod 4 = 0 -> n <= 800000 -> List.length names = List.length offs -> k < W32 -> Forall no_nul names ->
+  n mod 4 = 0 -> n <= 800000 -> List.length names = List.length offs -> k < AsmModel.W32 -> Forall no_nul names ->
   le32 k ++ strings_bytes names ++ le32 k ++ entries offs 0 = t ++ y -> t <> [] -> y <> [] ->
   Loader.load_file (le32 (n / 4) ++ img ++ t) = None.
 Proof. exact load_truncated_rejected. Qed.
